@@ -299,6 +299,15 @@ func classifyStored(v ssa.Value) (string, ssa.Value) {
 				}
 			}
 			return "?", nil
+		case *ssa.Call:
+			// t.Month() / t.Day() / t.Year(): the same components as t.Date()
+			if f := x.Call.StaticCallee(); f != nil {
+				switch f.String() {
+				case "(time.Time).Month", "(time.Time).Day", "(time.Time).Year":
+					return "time", nil
+				}
+			}
+			return "?", nil
 		case *ssa.UnOp:
 			if ia, ok := x.X.(*ssa.IndexAddr); ok && x.Op == token.MUL {
 				if _, isParam := ia.X.(*ssa.Parameter); isParam {
